@@ -35,6 +35,12 @@ def good : Code where
   producerRecordsErr := true
   producerClosesSource := true
   producerClosesC := true
+  guardBareLive := false
+  guardWrapLive := false
+  guardOtherLive := false
+  guardBareClosed := true
+  guardWrapClosed := false
+  guardOtherClosed := false
 
 
 /-! The generated guards, over the model's natural-number state. -/
@@ -84,6 +90,11 @@ theorem inv1_init (cfg : Cfg) : Inv1 cfg init := by
 
 theorem inv1_srcRet {cfg : Cfg} {s s' : State} (ev : _) (hi : Inv1 cfg s)
     (h : step good cfg s (.srcRet ev) = some s') : Inv1 cfg s' := by
+  obtain ⟨c1, t1a, t_set, t_ne, t_len, t_armed, t_fired, n1, n2, u0, u3, u1⟩ := hi
+  unfold_step at h <;> (repeat' split at h) <;> cases h <;> close_inv
+
+theorem inv1_srcCancelErr {cfg : Cfg} {s s' : State} (w : _) (hi : Inv1 cfg s)
+    (h : step good cfg s (.srcCancelErr w) = some s') : Inv1 cfg s' := by
   obtain ⟨c1, t1a, t_set, t_ne, t_len, t_armed, t_fired, n1, n2, u0, u3, u1⟩ := hi
   unfold_step at h <;> (repeat' split at h) <;> cases h <;> close_inv
 
@@ -191,6 +202,7 @@ theorem inv1_step {cfg : Cfg} {s s' : State} {l : Label} (hi : Inv1 cfg s)
     (h : step good cfg s l = some s') : Inv1 cfg s' := by
   cases l with
   | srcRet ev => exact inv1_srcRet ev hi h
+  | srcCancelErr w => exact inv1_srcCancelErr w hi h
   | nextCall live => exact inv1_nextCall live hi h
   | ctxExpire => exact inv1_ctxExpire hi h
   | tick d => exact inv1_tick d hi h
